@@ -594,6 +594,137 @@ def extract_binding_power():
     write_if_changed("BindingPower.lean", text)
 
 EXTRACTORS += [extract_binding_power]
+
+# ---------------------------------------------------------------- C11: string escapes (crates/ast/src/lower.rs: unescape_string)
+def _rust_char(lit):
+    """code point of a Rust char literal body (between the single quotes)"""
+    simple = {"\\n": 10, "\\r": 13, "\\t": 9, "\\\\": 92, "\\'": 39, '\\"': 34, "\\0": 0}
+    if lit in simple:
+        return simple[lit]
+    m = re.fullmatch(r"\\u\{([0-9a-fA-F]+)\}", lit)
+    if m:
+        return int(m.group(1), 16)
+    m = re.fullmatch(r"\\x([0-9a-fA-F]{2})", lit)
+    if m:
+        return int(m.group(1), 16)
+    if len(lit) == 1:
+        return ord(lit)
+    raise RuntimeError(f"unescape_string: cannot read the char literal '{lit}'")
+
+def _rust_arith_to_lean(text, vars_):
+    """translate a Rust u32 expression over `vars_` (integer literals, + - * << >> & | ^, parentheses)
+    into a fully parenthesised Lean Nat expression (Rust precedences; Lean's differ for << and &)"""
+    toks = re.findall(r"0x[0-9A-Fa-f_]+|\d[\d_]*|[A-Za-z_]\w*|<<|>>|[-+*&|^()]", text)
+    if "".join(toks) != re.sub(r"\s+", "", text):
+        raise RuntimeError(f"unescape_string: unexpected token in `{text}`")
+    prec = {"*": 6, "+": 5, "-": 5, "<<": 4, ">>": 4, "&": 3, "^": 2, "|": 1}
+    lean = {"*": "*", "+": "+", "-": "-", "<<": "<<<", ">>": ">>>", "&": "&&&", "^": "^^^", "|": "|||"}
+    pos = [0]
+    def peek():
+        return toks[pos[0]] if pos[0] < len(toks) else None
+    def atom():
+        t = peek()
+        pos[0] += 1
+        if t == "(":
+            e = expr(0)
+            if peek() != ")":
+                raise RuntimeError(f"unescape_string: unbalanced parentheses in `{text}`")
+            pos[0] += 1
+            return e
+        if t is None:
+            raise RuntimeError(f"unescape_string: truncated expression `{text}`")
+        if re.fullmatch(r"0x[0-9A-Fa-f_]+|\d[\d_]*", t):
+            return str(int(t.replace("_", ""), 0))
+        if t in vars_:
+            return t
+        raise RuntimeError(f"unescape_string: unknown name `{t}` in `{text}`")
+    def expr(minp):
+        lhs = atom()
+        while peek() in prec and prec[peek()] > minp:
+            op = peek()
+            pos[0] += 1
+            rhs = expr(prec[op])
+            lhs = f"({lhs} {lean[op]} {rhs})"
+        return lhs
+    e = expr(0)
+    if pos[0] != len(toks):
+        raise RuntimeError(f"unescape_string: trailing tokens in `{text}`")
+    return e
+
+def extract_str_escapes():
+    src = open(os.path.join(REPO, "crates/ast/src/lower.rs")).read()
+    m = re.search(r"fn unescape_string\(raw: &str\) -> Option<String> \{(.*?)\n\}\n", src, flags=re.S)
+    if not m:
+        raise RuntimeError("anchor lost: fn unescape_string(raw: &str) -> Option<String> in crates/ast/src/lower.rs")
+    body = m.group(1)
+    if len(re.findall(r"\bunescape_string\(", src)) < 3:
+        raise RuntimeError("unescape_string is no longer used by both the string literal and the string pattern lowering")
+    mm = re.search(r"match chars\.next\(\)\? \{\n(.*?)\n\s*'u' => \{\n(.*?)\n            \}\n\s*_ => return None,\n\s*\}", body, flags=re.S)
+    if not mm:
+        raise RuntimeError("unescape_string: the `match chars.next()? { …simple arms… 'u' => { … } _ => return None, }` shape is gone")
+    table = []
+    for line in mm.group(1).splitlines():
+        line = line.strip()
+        if not line:
+            continue
+        a = re.fullmatch(r"'((?:\\.|[^'\\])(?:[^']*)?)' => out\.push\('((?:\\.|[^'\\])(?:[^']*)?)'\),", line)
+        if not a:
+            raise RuntimeError(f"unescape_string: unexpected arm `{line}`")
+        table.append((_rust_char(a.group(1)), _rust_char(a.group(2))))
+    ublock = mm.group(2)
+    u = re.search(
+        r"let hi = hex4\(&mut chars\)\?;\s*"
+        r"let code = if \((0x[0-9A-Fa-f]+)\.\.(0x[0-9A-Fa-f]+)\)\.contains\(&hi\) \{\s*"
+        r"if chars\.next\(\)\? != '\\\\' \|\| chars\.next\(\)\? != 'u' \{\s*return None;\s*\}\s*"
+        r"let lo = hex4\(&mut chars\)\?;\s*"
+        r"if !\((0x[0-9A-Fa-f]+)\.\.(0x[0-9A-Fa-f]+)\)\.contains\(&lo\) \{\s*return None;\s*\}\s*"
+        r"([^;{}]+?)\s*\} else \{\s*hi\s*\};\s*"
+        r"out\.push\(char::from_u32\(code\)\?\);", ublock, flags=re.S)
+    if not u:
+        raise RuntimeError("unescape_string: the `'u'` arm no longer has the shape hex4 / high range / `\\u` / hex4 / low range / "
+                           "combination / `char::from_u32(code)?`")
+    h = re.search(r"fn hex4\(chars: &mut std::str::Chars<'_>\) -> Option<u32> \{\s*let mut value = 0u32;\s*for _ in 0\.\.4 \{\s*"
+                  r"value = value \* 16 \+ chars\.next\(\)\?\.to_digit\(16\)\?;\s*\}\s*Some\(value\)\s*\}", body)
+    if not h:
+        raise RuntimeError("unescape_string: fn hex4 no longer reads exactly four base-16 digits")
+    if not re.search(r"while let Some\(ch\) = chars\.next\(\) \{\s*if ch != '\\\\' \{\s*out\.push\(ch\);\s*continue;\s*\}", body):
+        raise RuntimeError("unescape_string: characters other than a backslash are no longer copied unchanged")
+    combine = _rust_arith_to_lean(u.group(5), {"hi", "lo"})
+    lexsrc = open(os.path.join(REPO, "crates/lexer/src/lib.rs")).read()
+    lx = re.search(r'#\[regex\(r#""\(\[\^"\\\\\\x00-\\x1F\]\|\\\\\(\[([^\]]+)\]\|u\[a-fA-F0-9\]\{4\}\)\)\*""#\)\]\s*Str,', lexsrc)
+    if not lx:
+        raise RuntimeError("anchor lost: the Str token regex in crates/lexer/src/lib.rs")
+    cls, lex_escapes, i = lx.group(1), [], 0
+    while i < len(cls):
+        if cls[i] == "\\":
+            lex_escapes.append(ord(cls[i + 1])); i += 2
+        else:
+            lex_escapes.append(ord(cls[i])); i += 1
+    text = "\n".join([
+        "/- GENERATED by tools/extract.py from crates/ast/src/lower.rs (fn unescape_string) and the `Str` token",
+        "   regex of crates/lexer/src/lib.rs — do not edit. -/",
+        "namespace Goml.Gen.StrEscapes",
+        "",
+        "/-- arms `'e' => out.push('c')` of `match chars.next()?`: escape letter ↦ character (code points) -/",
+        "def simpleTable : List (Nat × Nat) := [" + ", ".join(f"({a}, {b})" for a, b in table) + "]",
+        "",
+        "/-- escape letters of the lexer's `Str` regex, `\\\\([" + "…" + "]|u…)` -/",
+        "def lexerEscapes : List Nat := [" + ", ".join(str(x) for x in lex_escapes) + "]",
+        "",
+        "/-- `(lo..hi).contains(&hi)` / `(lo..hi).contains(&lo)` of the `'u'` arm -/",
+        f"def highLo : Nat := {int(u.group(1), 16)}",
+        f"def highHi : Nat := {int(u.group(2), 16)}",
+        f"def lowLo : Nat := {int(u.group(3), 16)}",
+        f"def lowHi : Nat := {int(u.group(4), 16)}",
+        "",
+        "/-- the recombination of a surrogate pair, translated from `" + re.sub(r"\s+", " ", u.group(5)) + "` -/",
+        f"def combine (hi lo : Nat) : Nat := {combine}",
+        "",
+        "end Goml.Gen.StrEscapes",
+        ""])
+    write_if_changed("StrEscapes.lean", text)
+
+EXTRACTORS += [extract_str_escapes]
 # ---------------------------------------------------------------------------
 # C12: lexer rules (crates/lexer/src/lib.rs) and syntax kinds (crates/parser/src/syntax.rs)
 
